@@ -33,14 +33,17 @@ class MultichainPolicyIteration(Plans):
             max_iterations=self.max_iterations
         )
         state_gain, action_gain, state_bias, action_bias, _, iterations = results
+        # the tie tolerance scales with the magnitude of the values (round-off does too)
+        max_gain = action_gain.max(-1, keepdims=True)
         gain_max_actions = np.isclose(
-            action_gain, action_gain.max(-1, keepdims=True),
-            atol=10**(-self.VALUE_DECIMAL_PRECISION),
+            action_gain, max_gain,
+            atol=10**(-self.VALUE_DECIMAL_PRECISION)*np.maximum(1, np.abs(max_gain)),
             rtol=0
         )
+        max_bias = action_bias.max(-1, keepdims=True)
         bias_max_actions = np.isclose(
-            action_bias, action_bias.max(-1, keepdims=True),
-            atol=10**(-self.VALUE_DECIMAL_PRECISION),
+            action_bias, max_bias,
+            atol=10**(-self.VALUE_DECIMAL_PRECISION)*np.maximum(1, np.abs(max_bias)),
             rtol=0
         )
         policy_matrix = gain_max_actions & bias_max_actions
